@@ -950,3 +950,15 @@ MUTANTS += [
  dict(name='c06-endomorphism-table-from-endo-of-a', prop='C06', expect='tables|G1::multiply_endomorphism',
       edits=[('src/bls12_381/curve_fast_multiply.cpp', '        WnafTable<G1, wnaf_window_size> wt;\n        wt.fill_table(a);', '        WnafTable<G1, wnaf_window_size> wt;\n        G1 ea;\n        ea.endomorphism(a);\n        wt.fill_table(ea);')]),
 ]
+# ---- R-POLY/digits
+MUTANTS += [
+ dict(name='c06-digits-endomorphism-c1-sign-flag-inverted-on-negative-digit', prop='C06', expect='R-POLY/digits',
+      edits=[('src/bls12_381/curve_fast_multiply.cpp', '                    timeslambda.endomorphism(wt.table[(-wc1.wnaf[i]) >> 1]);\n                    if (!c1_neg) {', '                    timeslambda.endomorphism(wt.table[(-wc1.wnaf[i]) >> 1]);\n                    if (c1_neg) {')]),
+ dict(name='c06-digits-frobenius-lookup-wrong-table', prop='C06', expect='R-POLY/digits',
+      edits=[('src/bls12_381/curve_fast_multiply.cpp', '                        this->add(*this, wt[j].table[power.wnaf[i] >> 1]);', '                        this->add(*this, wt[j ^ 1].table[power.wnaf[i] >> 1]);')]),
+ dict(name='c06-digits-table-multiply-no-found-one', prop='C06', expect='R-POLY/digits',
+      edits=[('include/bls12_381/wnaf.hpp', '                    result.add(result, tmp);\n                }\n                found_one = true;', '                    result.add(result, tmp);\n                }\n                found_one = (power.wnaf[i] > 0);')]),
+ dict(name='c06-digits-endomorphism-first-stream-not-negated', prop='C06', expect='R-POLY/digits',
+      edits=[('src/bls12_381/curve_fast_multiply.cpp', '                    if (c0_neg) {\n                        G1 tmp;\n                        tmp.negate(entry);\n                        this->add(*this, tmp);\n                    } else {\n                        this->add(*this, entry);\n                    }\n                } else {',
+              '                    this->add(*this, entry);\n                } else {')]),
+]
